@@ -56,7 +56,12 @@ def _worker_init():
 def _call(packed):
     fn, unit = packed
     try:
-        return ('ok', fn(unit))
+        t = time.perf_counter()
+        out = fn(unit)
+        if os.environ.get('VERIF_DEBUG'):
+            sys.stderr.write('UNIT %6.1fs %s\n' % (time.perf_counter() - t,
+                                                   repr(unit)[:160]))
+        return ('ok', out)
     except BaseException:
         return ('err', traceback.format_exc())
 
